@@ -290,6 +290,7 @@ impl C15 {
                 ("cross-type-equality", 60),
                 ("literal-reevaluation", 12),
                 ("immediate-collisions", 2),
+                ("string-lifecycle", 40),
             ]);
         }
         Families::new(vec![
@@ -307,6 +308,8 @@ impl C15 {
             ("cross-type-equality", (XVALS.len() * XVALS.len() * 5) as u64),
             ("literal-reevaluation", (RELITS.len() * 4) as u64),
             ("immediate-collisions", 12),
+            // equality and order of long strings across in-place changes (props/strlife.rs)
+            ("string-lifecycle", t.pick(4_000, 300_000)),
         ])
     }
 
@@ -634,6 +637,10 @@ impl Check for C15 {
                 if i == 0 {
                     st.sample(&format!("pairwise sample (200 values), e.g. {:?}", &self.sample[45..52].iter().map(render).collect::<Vec<_>>()));
                 }
+            }
+            "string-lifecycle" => {
+                let mut r = Rng::for_case(ctx.seed, 15_900, i);
+                super::strlife::run_case(&mut r, super::strlife::Focus::Equality, name, ctx.flavour == crate::sup::Flavour::Miri, st);
             }
             _ => unreachable!(),
         }
